@@ -46,6 +46,7 @@ type behaviour struct {
 	Cfg   mcfg              `json:"cfg"`
 	Ops   json.RawMessage   `json:"ops"`
 	Pred  [][]vh.M          `json:"pred"`
+	Tail  json.RawMessage   `json:"tail,omitempty"` // operations appended after the predicted ones (run and judged, not compared)
 	Flags []string          `json:"flags"`
 	Total int               `json:"total,omitempty"` // MaxBufferedPagesTotal (hand-written scenarios only)
 	Note  string            `json:"note,omitempty"`
@@ -274,6 +275,14 @@ func runBehaviour(sc int, line []byte, M, S, units int) (r result) {
 	if err != nil {
 		vh.Fatal("bad ops", err)
 	}
+	npred := len(ops)
+	if len(b.Tail) > 0 {
+		tail, err := asmc.ParseTLC(b.Tail)
+		if err != nil {
+			vh.Fatal("bad tail", err)
+		}
+		ops = append(ops, tail...)
+	}
 	h := &harness{sc: sc, cfg: b.Cfg, M: M, S: S, units: units, content: map[int]*asmc.Content{}, seen: map[int]bool{}}
 	h.all = append(h.all, vh.M{"op": "cfg", "sc": sc, "asm": "reassembly", "limit": b.Cfg.Limit, "keep": b.Cfg.Keep, "force": b.Cfg.Force,
 		"scale": S, "isn": int64(h.isn(0)), "misn": b.Cfg.Isn, "remove": b.Cfg.Remove})
@@ -303,7 +312,7 @@ func runBehaviour(sc int, line []byte, M, S, units int) (r result) {
 				}
 			}
 		}
-		if b.Pred != nil && r.drift == nil {
+		if b.Pred != nil && r.drift == nil && i < npred {
 			var pe []vh.M
 			if i < len(b.Pred) {
 				pe = b.Pred[i]
@@ -318,7 +327,7 @@ func runBehaviour(sc int, line []byte, M, S, units int) (r result) {
 			break
 		}
 	}
-	if b.Pred != nil && r.drift == nil && len(b.Pred) > len(ops) {
+	if b.Pred != nil && r.drift == nil && len(b.Pred) > npred {
 		r.drift = &implcmp.Drift{Sc: sc, Cfg: b.Cfg, Ops: string(b.Ops), OpIndex: len(ops), Kind: "length"}
 	}
 	r.events = h.all
